@@ -51,6 +51,19 @@ def cases_for(ctx):
         t = g.ty()
         for m in [t] + list(token_mutations(t)):
             tuples.append(("type", None, 500, render(m)))
+    # (ii') string literals at every boundary of the escape rules, in value and description position: the compiler's
+    # conversion of the syntax tree decodes them (unwrap on hex digits / char::from_u32), so a literal the lexer
+    # lets through although it has no value must not panic there
+    esc = ["\\u%04X" % c for c in (0x0000, 0x001F, 0x007F, 0x00E9, 0xD7FF, 0xD800, 0xD801, 0xDBFF, 0xDC00, 0xDFFE, 0xDFFF,
+                                     0xE000, 0xFFFD, 0xFFFF)]
+    esc += ["\\uD83D\\uDE00", "\\uDBFF\\uDFFF", "\\udfff", "\\ud800", "\\u12", "\\u", "\\u{1F600}", "\\uDFFG", "\\x41", "\\", "\\n\\t\\\\\\/"]
+    for x in esc:
+        for lit in ['"%s"' % x, '"a%sb"' % x]:
+            tuples.append(("doc", None, 500, "{ f(a: %s) }" % lit))
+            tuples.append(("doc", None, 500, "%s type T { f: Int }" % lit))
+            tuples.append(("doc", None, 500, "query($v: String = %s) { f }" % lit))
+            tuples.append(("selset", None, 500, "f(a: %s)" % lit))
+        tuples.append(("doc", None, 500, '{ f(a: """%s""") }' % x))
     # (iii) deep nests of each recursive construct around each recursion limit
     tuples += deep_cases()
     if not quick:
